@@ -198,7 +198,7 @@ def split_trace(trace_path, nshards, workdir):
 
 def validate(trace_path, workdir, nshards=None, env_extra=None):
     """TLC trace validation, sharded; returns findings with the session ops that reproduce them"""
-    nshards = nshards or max(1, min(NCPU - 2, 12))
+    nshards = nshards or max(1, min(NCPU - 2, 10))
     size = os.path.getsize(trace_path)
     if size < 400_000:
         nshards = 1
